@@ -189,6 +189,7 @@ func (fakeDialect) Append() string      { return "APPEND" }
 
 var registerFake sync.Once
 var dbCounter atomic.Int64
+var repoCounter atomic.Int64
 
 // lastRepoDir is the directory of the file-system repository created last (one REPO line runs at a time per process)
 var lastRepoDir string
@@ -196,6 +197,12 @@ var lastRepoDir string
 func newRepo(impl string) (asset.Repository, func(), error) {
 	switch impl {
 	case "mem", "memtz":
+		// alternately built directly and through the factory the command-line tools use
+		if repoCounter.Add(1)%2 == 0 {
+			if r, err := asset.NewRepository(asset.InMemoryRepositoryBuilderName, ""); err == nil {
+				return r, func() {}, nil
+			}
+		}
 		return asset.NewInMemoryRepository(), func() {}, nil
 	case "fs", "fsw":
 		dir, err := os.MkdirTemp("", "ivrepo")
@@ -203,6 +210,11 @@ func newRepo(impl string) (asset.Repository, func(), error) {
 			return nil, nil, err
 		}
 		lastRepoDir = dir
+		if repoCounter.Add(1)%2 == 0 {
+			if r, err := asset.NewRepository(asset.FileSystemRepositoryBuilderName, dir); err == nil {
+				return r, func() { os.RemoveAll(dir) }, nil
+			}
+		}
 		return asset.NewFileSystemRepository(dir), func() { os.RemoveAll(dir) }, nil
 	case "sql":
 		registerFake.Do(func() { sql.Register("ivfake", fakeDriver{}) })
@@ -1422,7 +1434,7 @@ func (r *recReport) Write(name string, s strategy.Strategy, snaps <-chan *asset.
 	if len(os_) > 0 {
 		last = os_[len(os_)-1]
 	}
-	r.res[name+"/"+s.Name()] = fmt.Sprintf("%d,%s", len(as), hexOfFloat(last))
+	r.res[name+"/"+skey(s)] = fmt.Sprintf("%d,%s", len(as), hexOfFloat(last))
 	r.mu.Unlock()
 	return nil
 }
@@ -1494,8 +1506,17 @@ var btStrategies = map[string]func() strategy.Strategy{
 	"rsi":  func() strategy.Strategy { return strategies["Rsi"]([]int{3}, []float64{40, 60}) },
 	"trix": func() strategy.Strategy { return strategies["Trix"]([]int{2}, nil) },
 	"bop":  func() strategy.Strategy { return strategies["Bop"](nil, nil) },
+	// two configurations of a strategy whose Name() does not mention its configuration
+	"kdjA": func() strategy.Strategy { return strategies["Kdj"]([]int{3, 2, 2}, nil) },
+	"kdjB": func() strategy.Strategy { return strategies["Kdj"]([]int{5, 3, 3}, nil) },
 	"vwma": func() strategy.Strategy { return strategies["Vwma"]([]int{3}, nil) },
 }
+
+// strategies of the current BT run by identity: two members of the list may have the same Name()
+var btIdx = map[strategy.Strategy]int{}
+var btNameCount = map[string]int{}
+
+func skey(s strategy.Strategy) string { return fmt.Sprintf("%s#%d", s.Name(), btIdx[s]) }
 
 // BT workers report lastDays strategies seed nassets len
 func runBacktest(args []string) string {
@@ -1536,8 +1557,16 @@ func runBacktest(args []string) string {
 			repo.Append(name, helper.SliceToChan(snaps))
 		}
 		var ss []strategy.Strategy
-		for _, k := range strings.Split(args[3], ",") {
-			ss = append(ss, btStrategies[k]())
+		btIdx, btNameCount = map[strategy.Strategy]int{}, map[string]int{}
+		for i, k := range strings.Split(args[3], ",") {
+			st := btStrategies[k]()
+			ss = append(ss, st)
+			btIdx[st] = i
+			btNameCount[st.Name()]++
+		}
+		byName := map[string]string{}
+		for _, st := range ss {
+			byName[st.Name()] = skey(st)
 		}
 		// names the repository does not know (a typo in the asset list): logged and skipped, the others must still be reported
 		runNames := append([]string(nil), names...)
@@ -1570,7 +1599,7 @@ func runBacktest(args []string) string {
 				if len(os_) > 0 {
 					last = os_[len(os_)-1]
 				}
-				expect[name+"/"+s.Name()] = fmt.Sprintf("%d,%s", len(as), hexOfFloat(last))
+				expect[name+"/"+skey(s)] = fmt.Sprintf("%d,%s", len(as), hexOfFloat(last))
 			}
 		}
 		keys := func(m map[string]string) []string {
@@ -1619,7 +1648,7 @@ func runBacktest(args []string) string {
 			for name, rs := range rep.Results {
 				for _, x := range rs {
 					total++
-					got[name+"/"+x.Strategy.Name()] = fmt.Sprintf("%d,%s", len(x.Transactions), hexOfFloat(x.Outcome))
+					got[name+"/"+skey(x.Strategy)] = fmt.Sprintf("%d,%s", len(x.Transactions), hexOfFloat(x.Outcome))
 				}
 			}
 			if total != len(expect) {
@@ -1636,6 +1665,22 @@ func runBacktest(args []string) string {
 				}
 			}
 			return fmt.Sprintf("ok fine pairs=%d", len(expect))
+		case "htmlbad":
+			// the report cannot begin (its output directory is a regular file): Run has to return the error, nothing else may run
+			f, err := os.CreateTemp("", "ivbtfile")
+			if err != nil {
+				return "ERR " + err.Error()
+			}
+			f.Close()
+			defer os.Remove(f.Name())
+			rep := backtest.NewHTMLReport(f.Name())
+			rep.Logger = quiet
+			bt := backtest.NewBacktest(repo, rep)
+			bt.Names, bt.Strategies, bt.Workers, bt.LastDays, bt.Logger = runNames, ss, workers, lastDays, quiet
+			if err := bt.Run(); err != nil {
+				return "ok runerr"
+			}
+			return "ok run-succeeded-although-the-report-could-not-begin"
 		case "html":
 			dir, err := os.MkdirTemp("", "ivbt")
 			if err != nil {
@@ -1687,7 +1732,12 @@ func runBacktest(args []string) string {
 				raw, _ := os.ReadFile(filepath.Join(dir, n+".html"))
 				var prev float64
 				for i, m := range rowRe.FindAllStringSubmatch(string(raw), -1) {
-					v := exact(n + "/" + html.UnescapeString(m[1]))
+					sn0 := html.UnescapeString(m[1])
+					if btNameCount[sn0] != 1 {
+						prev = math.Inf(1) // two strategies share this name: their rows cannot be told apart here
+						continue
+					}
+					v := exact(n + "/" + byName[sn0])
 					if i > 0 && v > prev {
 						return fmt.Sprintf("ok unsorted-exact:%s:%s:%v>%v", n, strings.ReplaceAll(m[1], " ", "_"), v, prev)
 					}
@@ -1699,9 +1749,13 @@ func runBacktest(args []string) string {
 			var prevBest float64
 			for i, m := range idxRe.FindAllStringSubmatch(string(rawIdx), -1) {
 				an, sn := m[1], html.UnescapeString(strings.TrimSpace(m[2]))
-				v := exact(an + "/" + sn)
+				if btNameCount[sn] != 1 {
+					prevBest = math.Inf(1) // the best entry is one of two strategies of the same name: not comparable here
+					continue
+				}
+				v := exact(an + "/" + byName[sn])
 				for _, s := range ss {
-					if o := exact(an + "/" + s.Name()); o > v {
+					if o := exact(an + "/" + skey(s)); o > v {
 						return fmt.Sprintf("ok best-not-max:%s:%s:%v<%v", an, strings.ReplaceAll(sn, " ", "_"), v, o)
 					}
 				}
